@@ -122,6 +122,13 @@ func init() {
 			return smt.Ite(smt.Eq(c, smt.StrLit("")), smt.BV(0, 64), smt.Ite(smt.BVSlt(sum, smt.BV(1, 64)), smt.BV(1, 64), sum))
 		}
 		models[recv+".Grow"] = func(in *Interp, fn *ssa.Function, a []Value) Value { return nil }
+		// Cap(): some capacity not below the length (allocation policy is not modelled)
+		models[recv+".Cap"] = func(in *Interp, fn *ssa.Function, a []Value) Value {
+			l := models[recv+".Len"](in, fn, a).(*smt.Term)
+			c := smt.NewVar(symName(in.fresh("bufcap")), smt.KBV, 64)
+			in.Assume(smt.And(smt.BVSle(l, c), smt.BVSle(c, smt.BV(1<<40, 64))))
+			return c
+		}
 		models[recv+".Reset"] = func(in *Interp, fn *ssa.Function, a []Value) Value {
 			in.Ghost["buf:"+ptrKey(a[0])] = smt.StrLit("")
 			if views, _ := in.Ghost["bufviews:"+ptrKey(a[0])].([]*SliceV); len(views) > 0 {
